@@ -60,13 +60,31 @@ Free(i) == exLock[i] = None /\ shLock[i] = {}
 \* a pending window found in the log is replayed in place (recover_wal)
 Open(p) ==
   /\ h[p].st = "none"
-  /\ Free(name)
+  /\ Free(name) /\ disk[name].pend = {}
   /\ exLock' = [exLock EXCEPT ![name] = p]
   /\ h' = [h EXCEPT ![p] = [st |-> "rw", file |-> name, lock |-> name, stage |-> 0, dirty |-> FALSE,
                              seen |-> disk[name].frames \cup disk[name].pend, pins |-> 0]]
   /\ disk' = [disk EXCEPT ![name] = [frames |-> @.frames \cup @.pend, pend |-> {}]]
   /\ last' = Obs(p, "open", "ok")
   /\ UNCHANGED <<name, nextIno, shLock, lost, nput>>
+
+\* exclusive open of a file whose log holds acknowledged-but-unapplied records: the replay runs on a staging copy
+\* that replaces the file (like a commit), so the handle ends up on a new inode, holding its lock in shared mode
+OpenReplay(p) ==
+  /\ h[p].st = "none"
+  /\ Free(name)         \* pend may be empty: a pending lexical-index record (no frame) is replayed the same way
+  /\ nextIno <= MaxIno
+  /\ LET n == nextIno
+         nf == disk[name].frames \cup disk[name].pend IN
+     /\ disk' = [disk EXCEPT ![n] = [frames |-> nf, pend |-> {}]]
+     /\ name' = n /\ nextIno' = nextIno + 1
+     /\ IF "D17_lock_on_old_inode" \in Defects
+          THEN /\ exLock' = [exLock EXCEPT ![name] = p] /\ shLock' = shLock
+               /\ h' = [h EXCEPT ![p] = [st |-> "rw", file |-> n, lock |-> name, stage |-> 0, dirty |-> FALSE, seen |-> nf, pins |-> 0]]
+          ELSE /\ exLock' = exLock /\ shLock' = [shLock EXCEPT ![n] = @ \cup {p}]
+               /\ h' = [h EXCEPT ![p] = [st |-> "rw", file |-> n, lock |-> n, stage |-> 0, dirty |-> FALSE, seen |-> nf, pins |-> 0]]
+  /\ last' = Obs(p, "open", "ok")
+  /\ UNCHANGED <<lost, nput>>
 
 \* an exclusive open attempt while the inode is locked fails and changes nothing
 OpenBusy(p) ==
@@ -203,7 +221,7 @@ Abandon(p) ==
   /\ last' = Obs(p, "abandon", "ok")
   /\ UNCHANGED <<name, nextIno, disk, lost, nput>>
 
-Next == \E p \in Proc : \/ Open(p) \/ OpenBusy(p) \/ OpenRO(p) \/ OpenROBusy(p) \/ Put(p)
+Next == \E p \in Proc : \/ Open(p) \/ OpenReplay(p) \/ OpenBusy(p) \/ OpenRO(p) \/ OpenROBusy(p) \/ Put(p)
                         \/ CommitStage(p) \/ CommitRename(p) \/ InPlace(p) \/ Doctor(p)
                         \/ Close(p) \/ Abandon(p)
 
